@@ -38,7 +38,10 @@ type blk struct {
 
 type input struct {
 	Blocks []blk `json:"blocks"`
-	Conc   []int `json:"conc"` // one run of the filter per entry
+	Conc   []int `json:"conc"` // one filter instance per entry
+	// Steps: successive Filter calls (syncs) on the SAME filter instance; each step lists the
+	// indices of the blocks present at that sync.  Absent = one call with all blocks.
+	Steps [][]int `json:"steps,omitempty"`
 }
 
 func (u uid) ulid() ulid.ULID {
@@ -167,6 +170,51 @@ func facts(repo string, w io.Writer) error {
 	}
 	fmt.Fprintf(w, "Definition filterGroup_level_differs (ilvl jlvl : Z) : bool :=\n  %s.\n", lvlCond)
 	fmt.Fprintf(w, "Definition filterGroup_level_first (ilvl jlvl : Z) : bool :=\n  %s.\n", lvlE)
+
+	// Filter / filterGroup use the receiver only for: f.concurrency (read), f.mu.Lock/Unlock,
+	// f.filterGroup(...) and the assignment f.duplicateIDs = ... (the result slot): nothing
+	// written by a previous call is read.
+	stateless := true
+	why := ""
+	for _, fn := range []string{"DefaultDeduplicateFilter.Filter", "DefaultDeduplicateFilter.filterGroup"} {
+		d, err := s.FindFunc(fn)
+		if err != nil {
+			return err
+		}
+		recv := d.Recv.List[0].Names[0].Name
+		lhs := map[ast.Node]bool{}
+		ast.Inspect(d.Body, func(n ast.Node) bool {
+			if as, ok := n.(*ast.AssignStmt); ok {
+				for _, l := range as.Lhs {
+					lhs[l] = true
+				}
+			}
+			return true
+		})
+		ast.Inspect(d.Body, func(n ast.Node) bool {
+			se, ok := n.(*ast.SelectorExpr)
+			if !ok {
+				return true
+			}
+			id, ok := se.X.(*ast.Ident)
+			if !ok || id.Name != recv {
+				return true
+			}
+			switch se.Sel.Name {
+			case "concurrency", "mu", "filterGroup":
+			case "duplicateIDs":
+				if !lhs[se] {
+					stateless, why = false, fn+" reads "+recv+".duplicateIDs"
+				}
+			default:
+				stateless, why = false, fn+" uses "+recv+"."+se.Sel.Name
+			}
+			return true
+		})
+	}
+	fmt.Fprintln(w, "(* Filter and filterGroup read nothing a previous call wrote: the receiver is used only for concurrency, the mutex,")
+	fmt.Fprintf(w, "   filterGroup and the assignment of the result slot duplicateIDs%s *)\n", map[bool]string{true: "", false: " -- VIOLATED: " + why}[stateless])
+	fmt.Fprintf(w, "Definition filter_reads_no_previous_result : bool := %v.\n", stateless)
 	return nil
 }
 
@@ -176,9 +224,18 @@ func run(raw json.RawMessage) (common.Case, error) {
 		return common.Case{}, err
 	}
 	var c common.Case
-	build := func() map[ulid.ULID]*metadata.Meta {
+	steps := in.Steps
+	if len(steps) == 0 {
+		all := make([]int, len(in.Blocks))
+		for i := range all {
+			all[i] = i
+		}
+		steps = [][]int{all}
+	}
+	build := func(idx []int) map[ulid.ULID]*metadata.Meta {
 		metas := map[ulid.ULID]*metadata.Meta{}
-		for _, b := range in.Blocks {
+		for _, i := range idx {
+			b := in.Blocks[i]
 			m := &metadata.Meta{}
 			m.Version = 1
 			m.ULID = b.ID.ulid()
@@ -214,51 +271,113 @@ func run(raw json.RawMessage) (common.Case, error) {
 		}
 		bs = append(bs, common.App("mk_blk", zOf(id), common.Z(keys[k]), zList(ss), common.Z(int64(b.Level))))
 	}
+	for _, st := range steps {
+		for _, i := range st {
+			if i < 0 || i >= len(in.Blocks) {
+				return c, fmt.Errorf("step refers to block %d of %d", i, len(in.Blocks))
+			}
+		}
+	}
 	type res struct {
+		Step int      `json:"step"`
 		Conc int      `json:"conc"`
 		Kept []string `json:"kept"`
 		Dups []string `json:"dups"`
 	}
 	var obs []res
-	var runs []string
-	var first *res
+	runsOf := make([][]string, len(steps)) // per step: one run per filter instance
+	firstOf := make([]*res, len(steps))
+	maxDups := 0
 	for _, conc := range in.Conc {
-		metas := build()
-		f := block.NewDeduplicateFilter(conc)
-		g := extprom.NewTxGaugeVec(nil, prometheus.GaugeOpts{}, []string{"state"})
-		if err := f.Filter(context.Background(), metas, g, g); err != nil {
-			return c, err
-		}
-		var kept []ulid.ULID
-		for id := range metas {
-			kept = append(kept, id)
-		}
-		dups := append([]ulid.ULID{}, f.DuplicateIDs()...)
-		sortULIDs(kept)
-		sortULIDs(dups)
-		r := res{Conc: conc}
-		for _, u := range kept {
-			r.Kept = append(r.Kept, u.String())
-		}
-		for _, u := range dups {
-			r.Dups = append(r.Dups, u.String())
-		}
-		obs = append(obs, r)
-		runs = append(runs, common.Tuple(common.Z(int64(conc)), zList(kept), zList(dups)))
-		if first == nil {
-			first = &r
-		} else if fmt.Sprint(first.Kept, first.Dups) != fmt.Sprint(r.Kept, r.Dups) && c.GoPred == "" {
-			c.GoPred, c.Sig = "the outcome differs between two runs (listing order / concurrency)", "order-dependent"
+		f := block.NewDeduplicateFilter(conc) // one long-lived instance, one Filter call per sync
+		for si, st := range steps {
+			metas := build(st)
+			g := extprom.NewTxGaugeVec(nil, prometheus.GaugeOpts{}, []string{"state"})
+			if err := f.Filter(context.Background(), metas, g, g); err != nil {
+				return c, err
+			}
+			var kept []ulid.ULID
+			for id := range metas {
+				kept = append(kept, id)
+			}
+			dups := append([]ulid.ULID{}, f.DuplicateIDs()...)
+			sortULIDs(kept)
+			sortULIDs(dups)
+			r := res{Step: si, Conc: conc}
+			for _, u := range kept {
+				r.Kept = append(r.Kept, u.String())
+			}
+			for _, u := range dups {
+				r.Dups = append(r.Dups, u.String())
+			}
+			if len(obs) < 12 {
+				obs = append(obs, r)
+			}
+			if len(dups) > maxDups {
+				maxDups = len(dups)
+			}
+			runsOf[si] = append(runsOf[si], common.Tuple(common.Z(int64(conc)), zList(kept), zList(dups)))
+			if firstOf[si] == nil {
+				firstOf[si] = &r
+			} else if fmt.Sprint(firstOf[si].Kept, firstOf[si].Dups) != fmt.Sprint(r.Kept, r.Dups) && c.GoPred == "" {
+				c.GoPred, c.Sig = "the outcome differs between two runs (listing order / concurrency)", "order-dependent"
+			}
+			// Go-side check of "hidden only if a kept block of the same group has all its sources"
+			if c.GoPred == "" {
+				keptSet := map[ulid.ULID]bool{}
+				for _, u := range kept {
+					keptSet[u] = true
+				}
+				by := map[ulid.ULID]blk{}
+				for _, i := range st {
+					by[in.Blocks[i].ID.ulid()] = in.Blocks[i]
+				}
+				for _, d := range dups {
+					hb := by[d]
+					covered := false
+					for u := range keptSet {
+						kb := by[u]
+						if kb.Label != hb.Label || kb.Res != hb.Res {
+							continue
+						}
+						have := map[uid]bool{}
+						for _, s := range kb.Sources {
+							have[s] = true
+						}
+						ok := true
+						for _, s := range hb.Sources {
+							if !have[s] {
+								ok = false
+							}
+						}
+						if ok {
+							covered = true
+						}
+					}
+					if !covered {
+						c.GoPred = fmt.Sprintf("sync %d: block %s is hidden as duplicate but no kept block of its group was built from all its sources", si+1, d)
+						c.Sig = "hidden-not-covered"
+					}
+				}
+			}
 		}
 	}
 	c.Obs = obs
-	nd := 0
-	if first != nil {
-		nd = len(first.Dups)
+	c.Class = fmt.Sprintf("syncs=%d/groups=%d/dups=%d", len(steps), min(len(keys), 4), min(maxDups, 5))
+	c.Nontrivial = maxDups > 0
+	if len(in.Steps) == 0 {
+		c.Coq = common.App("CDedup", common.List(bs), common.List(runsOf[0]))
+		return c, nil
 	}
-	c.Class = fmt.Sprintf("groups=%d/dups=%d", min(len(keys), 4), min(nd, 5))
-	c.Nontrivial = nd > 0
-	c.Coq = common.App("CDedup", common.List(bs), common.List(runs))
+	var sts []string
+	for si, st := range steps {
+		var l []string
+		for _, i := range st {
+			l = append(l, bs[i])
+		}
+		sts = append(sts, common.Pair(common.List(l), common.List(runsOf[si])))
+	}
+	c.Coq = common.App("CHistory", common.List(sts))
 	return c, nil
 }
 
@@ -325,6 +444,45 @@ func gen(r *rand.Rand, tier string, n int) []any {
 			in.Blocks = []blk{}
 		}
 		in.Conc = []int{1, 1 + r.Intn(8), 1 + r.Intn(8), 8}
+		if r.Intn(5) < 2 && len(in.Blocks) > 0 {
+			// a history of syncs on the same filter instances: all blocks, then the blocks with the
+			// most sources (the likely covering blocks) gone, then a random subset / all again
+			all := make([]int, len(in.Blocks))
+			maxSrc := 0
+			for j := range all {
+				all[j] = j
+				if len(in.Blocks[j].Sources) > maxSrc {
+					maxSrc = len(in.Blocks[j].Sources)
+				}
+			}
+			var without []int
+			for j, b := range in.Blocks {
+				if len(b.Sources) == maxSrc && r.Intn(4) > 0 {
+					continue
+				}
+				without = append(without, j)
+			}
+			if without == nil {
+				without = []int{}
+			}
+			in.Steps = [][]int{all, without}
+			switch r.Intn(3) {
+			case 0:
+				in.Steps = append(in.Steps, all)
+			case 1:
+				var sub []int
+				for j := range all {
+					if r.Intn(2) == 0 {
+						sub = append(sub, j)
+					}
+				}
+				if sub == nil {
+					sub = []int{}
+				}
+				in.Steps = append(in.Steps, sub)
+			}
+			in.Conc = []int{1, 1 + r.Intn(8)}
+		}
 		out = append(out, in)
 	}
 	return out
